@@ -820,3 +820,31 @@ def huge_ratio_cases(seed):
                 src, d = op['osrc'], op['odst']
         out.append(g)
     return out
+
+
+
+def short_well_cases(seed):
+    """directed: a region pooled into a container (and dispensed from, well by well, into another plate) in which one row holds less
+    than the request: the whole call is refused (ValueError), nothing is moved"""
+    import random
+    q = lambda v, p, b: {'v': v, 'p': p, 'b': b}
+    out = []
+    for i, (full, short, req) in enumerate((('50', '4', '20'), ('120', '15', '40'))):
+        g = Gen(random.Random(seed * 907 + i), kinds=('Liquid', 'Solid', 'Liquid'))
+        a = g.new_container(nsub=2, scale=5.0)
+        pl = g.new_plate(rows=2, cols=3, max_ul=500)
+        if a is None or pl is None:
+            continue
+        for r, v in ((0, full), (1, short)):
+            op = {'op': 'transfer', 'src': {'c': a}, 'dst': {'p': pl, 'r': {'rect': [[r], [0, 1, 2]]}}, 'q': q(v, 'u', 'L'), 'osrc': g.fresh(), 'odst': g.fresh()}
+            if g.emit(op, 'short:load')['ok']:
+                a, pl = op['osrc'], op['odst']
+        d = g.fresh()
+        g.emit({'op': 'newc', 'out': d, 'name': g.name(), 'init': []}, 'short:tube')
+        whole = {'rect': [[0, 1], [0, 1, 2]]}
+        g.emit({'op': 'transfer', 'src': {'p': pl, 'r': whole}, 'dst': {'c': d}, 'q': q(req, 'u', 'L'), 'osrc': g.fresh(), 'odst': g.fresh()}, 'short:pool-refused')
+        g.emit({'op': 'transfer', 'src': {'p': pl, 'r': {'rect': [[0, 1], [1]]}}, 'dst': {'c': d}, 'q': q(req, 'u', 'L'), 'osrc': g.fresh(), 'odst': g.fresh()}, 'short:column-refused')
+        op = {'op': 'transfer', 'src': {'p': pl, 'r': {'rect': [[0], [0, 1, 2]]}}, 'dst': {'c': d}, 'q': q(req, 'u', 'L'), 'osrc': g.fresh(), 'odst': g.fresh()}
+        g.emit(op, 'short:full-row-accepted')
+        out.append(g)
+    return out
